@@ -168,7 +168,7 @@ func (x *run) observe() {
 }
 
 func (x *run) quiesce(label string) bool {
-	if err := sim.WaitQuiescent(5 * time.Second); err != nil {
+	if err := sim.WaitQuiescent(30 * time.Second); err != nil {
 		x.emit("HARNESS-ERROR %s after %s", err, label)
 		return false
 	}
